@@ -41,10 +41,12 @@ package primitive
 //@ funcs ^CheckValid(OpCode|ConsistencyLevel|EventType|WriteType|BatchType|SchemaChangeType|StatusChangeType|ResultType|FailureCode)$
 //@   prop C19
 //@   ensures iff: (result == nil) == declared(arg0)
+//@   assigns nothing
 
 //@ func CheckSupportedProtocolVersion
 //@   prop C19
 //@   ensures iff: (result == nil) == declared(version)
+//@   assigns nothing
 
 // Capability predicates against the feature tables of specs/native_protocol_v2..v5.spec and dse_protocol_v1..v2.spec
 // (for undeclared version numbers only totality is required).
@@ -129,3 +131,111 @@ package primitive
 //@ func (ProtocolVersion).IsOss
 //@   prop C19
 //@   ensures table: result == (declared(self) && self != ProtocolVersionDse1 && self != ProtocolVersionDse2)
+
+// ---- C03: the length each notation reports equals the number of bytes its encoder writes ----------------------
+// written(w) is the ghost count of bytes written to w so far; fold(f, s, t) is the sum of f over the first t
+// elements of s.
+
+//@ func WriteByte
+//@   prop C03
+//@   assigns wstream(dest)
+//@   ensures len: result == nil ==> written(dest) == old(written(dest)) + 1
+//@ func WriteShort
+//@   prop C03
+//@   assigns wstream(dest)
+//@   ensures len: result == nil ==> written(dest) == old(written(dest)) + 2
+//@ func WriteInt
+//@   prop C03
+//@   assigns wstream(dest)
+//@   ensures len: result == nil ==> written(dest) == old(written(dest)) + 4
+//@ func WriteLong
+//@   prop C03
+//@   assigns wstream(dest)
+//@   ensures len: result == nil ==> written(dest) == old(written(dest)) + 8
+
+//@ func WriteString
+//@   prop C03
+//@   assigns wstream(dest)
+//@   ensures len: result == nil ==> Z(written(dest)) == Z(old(written(dest))) + Z(LengthOfString(s))
+//@ func WriteLongString
+//@   prop C03
+//@   assigns wstream(dest)
+//@   ensures len: result == nil ==> Z(written(dest)) == Z(old(written(dest))) + Z(LengthOfLongString(s))
+//@ func WriteBytes
+//@   prop C03
+//@   assigns wstream(dest)
+//@   ensures len: result == nil ==> Z(written(dest)) == Z(old(written(dest))) + Z(LengthOfBytes(b))
+//@ func WriteShortBytes
+//@   prop C03
+//@   assigns wstream(dest)
+//@   ensures len: result == nil ==> Z(written(dest)) == Z(old(written(dest))) + Z(LengthOfShortBytes(b))
+//@ func WriteUuid
+//@   prop C03
+//@   nilable uuid
+//@   assigns wstream(dest)
+//@   ensures len: result == nil ==> written(dest) == old(written(dest)) + 16
+//@ func WriteInetAddr
+//@   prop C03
+//@   assigns wstream(dest)
+//@   ensures len: result == nil ==> Z(written(dest)) == Z(old(written(dest))) + Z(LengthOfInetAddr(inetAddr))
+//@ func WriteInet
+//@   prop C03
+//@   nilable inet
+//@   assigns wstream(dest)
+//@   ensures len: result == nil ==> Z(written(dest)) == Z(old(written(dest))) + Z(LengthOfInet(inet))
+//@ func WriteValue
+//@   prop C03
+//@   nilable value
+//@   assigns wstream(dest)
+//@   ensures len: result == nil ==> Z(written(dest)) == Z(old(written(dest))) + Z(LengthOfValue(value))
+//@ func WriteStreamId
+//@   prop C03
+//@   assigns wstream(dest)
+//@   ensures len: result == nil ==> written(dest) == old(written(dest)) + ite(version >= ProtocolVersion3, int(2), int(1))
+
+// vints: 1 to 9 bytes, the same count from the writer, the length function and (C12) the reader.
+//@ func WriteUnsignedVint
+//@   prop C03
+//@   assigns wstream(dest)
+//@   ensures len: err == nil ==> Z(written(dest)) == Z(old(written(dest))) + Z(LengthOfUnsignedVint(v)) && Z(written) == Z(LengthOfUnsignedVint(v))
+//@ func WriteVint
+//@   prop C03
+//@   assigns wstream(dest)
+//@   ensures len: err == nil ==> Z(written(dest)) == Z(old(written(dest))) + Z(LengthOfVint(v)) && Z(written) == Z(LengthOfVint(v))
+
+// collections: both the writer loop and the length loop compute  2 + sum of the elements' lengths
+
+//@ func WriteStringList
+//@   prop C03
+//@   assigns wstream(dest)
+//@   let w0 = written(dest)
+//@   invariant #0 sum: written(dest) == w0 + 2 + fold(LengthOfString, list, rangeindex + 1)
+//@   ensures len: result == nil ==> written(dest) == w0 + 2 + fold(LengthOfString, list, len(list))
+//@ func LengthOfStringList
+//@   prop C03
+//@   assigns nothing
+//@   invariant #0 sum: length == 2 + fold(LengthOfString, list, rangeindex + 1)
+//@   ensures len: result == 2 + fold(LengthOfString, list, len(list))
+
+//@ func WritePositionalValues
+//@   prop C03
+//@   assigns wstream(dest)
+//@   let w0 = written(dest)
+//@   invariant #0 sum: written(dest) == w0 + 2 + fold(LengthOfValue, values, rangeindex + 1)
+//@   ensures len: result == nil ==> written(dest) == w0 + 2 + fold(LengthOfValue, values, len(values))
+//@ func LengthOfPositionalValues
+//@   prop C03
+//@   assigns nothing
+//@   invariant #0 sum: length == 2 + fold(LengthOfValue, values, rangeindex + 1)
+//@   ensures len: err == nil ==> length == 2 + fold(LengthOfValue, values, len(values))
+
+// Map-typed notations: the writer and the length function both range over the map; their agreement needs a fold over
+// a map enumeration and is NOT yet under proof - both are tied to one abstract length by assumption (reported).
+//@ func WriteBytesMap
+//@   prop C03
+//@   assigns wstream(dest)
+//@   assumes len: result == nil ==> written(dest) == old(written(dest)) + abstractLen("bytesmap", m)
+//@ func LengthOfBytesMap
+//@   prop C03
+//@   assigns nothing
+//@   assumes len: result == abstractLen("bytesmap", m)
